@@ -31,9 +31,14 @@ tests = [f for f in os.listdir(f"{src}/demo") if f.endswith(".go") and os.path.i
 line = next((l for l in run_md.splitlines() if "go test" in l), "")
 mp = re.search(r"-run[ =]+'?\"?([^'\"\s]+)", line)
 mk = re.search(r"(\./[\w/]+)", line)
-if not (mp and mk):
+if not mk:
     sys.exit("cannot parse RUN.md: " + run_md[:400])
-pattern, pkg = mp.group(1), mk.group(1).rstrip("/")
+pattern, pkg = (mp.group(1) if mp else "."), mk.group(1).rstrip("/")
+demo_tree = None
+if not tests:  # the demonstration is a directory (a package of its own, possibly with helper packages below it)
+    subs = [d for d in os.listdir(f"{src}/demo") if os.path.isdir(f"{src}/demo/{d}")]
+    if len(subs) == 1:
+        demo_tree = f"{src}/demo/{subs[0]}"
 race = "-race" if "-race" in run_md else ""
 pkgdir = pkg[2:]
 patch = f"{src}/patch.diff"
@@ -45,9 +50,15 @@ rc, out = sh(f"git -C /repo worktree add -q --detach {wt} HEAD")
 if rc:
     sys.exit(out)
 try:
-    os.makedirs(f"{wt}/utils/{pkgdir}", exist_ok=True)
-    for t in tests:
-        shutil.copy(f"{src}/demo/{t}", f"{wt}/utils/{pkgdir}/{t}")
+    def put_demo():
+        if demo_tree:
+            shutil.rmtree(f"{wt}/utils/{pkgdir}", ignore_errors=True)
+            shutil.copytree(demo_tree, f"{wt}/utils/{pkgdir}")
+            return
+        os.makedirs(f"{wt}/utils/{pkgdir}", exist_ok=True)
+        for t in tests:
+            shutil.copy(f"{src}/demo/{t}", f"{wt}/utils/{pkgdir}/{t}")
+    put_demo()
     demo = f"go test {race} -vet=off -count=1 -run '{pattern}' {pkg}/"
     rc0, out0 = sh(demo, cwd=f"{wt}/utils", timeout=900)
     note(f"demo without the change: `{demo}` -> {'PASS' if rc0 == 0 else 'FAIL rc=%d' % rc0}")
@@ -61,16 +72,14 @@ try:
     note(f"go build ./... with the change -> rc={rcb}")
     for t in tests:  # the demonstration is not part of the repository's suite (a failing demo may leave processes behind)
         os.remove(f"{wt}/utils/{pkgdir}/{t}")
-    demo_dir_own = not any(f.endswith(".go") for f in os.listdir(f"{wt}/utils/{pkgdir}"))
+    demo_dir_own = demo_tree is not None or not any(f.endswith(".go") for f in os.listdir(f"{wt}/utils/{pkgdir}"))
     if demo_dir_own:  # the demonstration lives in a package of its own
         shutil.rmtree(f"{wt}/utils/{pkgdir}")
     rct, outt = sh(f"python3 /verif/tools/baseline.py {wt} {' '.join(pkgs)}")
     if rct != 0:  # timing-sensitive tests under load: once more
         rct, outt = sh(f"python3 /verif/tools/baseline.py {wt} {' '.join(pkgs)}")
     note(f"repository baseline tests {' '.join(pkgs)} with the change -> {outt.strip().splitlines()[0] if outt.strip() else ''} rc={rct}")
-    os.makedirs(f"{wt}/utils/{pkgdir}", exist_ok=True)
-    for t in tests:
-        shutil.copy(f"{src}/demo/{t}", f"{wt}/utils/{pkgdir}/{t}")
+    put_demo()
     rc1, out1 = sh(demo, cwd=f"{wt}/utils", timeout=900)
     note(f"demo with the change -> {'PASS' if rc1 == 0 else 'FAIL'}")
     confirmed = rc0 == 0 and rcb == 0 and rct == 0 and rc1 != 0
